@@ -737,7 +737,7 @@ def dict_alternatives(ctx: Ctx, f: FuncInfo, e: ast.AST, _depth: int = 0, _bind:
     return None
 
 
-def foreign_history_writes(ctx: Ctx, rule: str, why: str):
+def foreign_history_writes(ctx: Ctx, rule: str, why: str, own_step_edits: bool = True, foreign: bool = True, carry_ok: bool = False):
     """A deme's `_history` is written only by the deme's own methods (through `self`).  Any other code that appends to /
     rebinds / edits `<deme>._history` records generations the deme never bred (or removes some): -> obligations (one OK
     summary when there is none)."""
@@ -771,7 +771,10 @@ def foreign_history_writes(ctx: Ctx, rule: str, why: str):
             n += 1
             if own and isinstance(tgt.value, ast.Name) and tgt.value.id == sn:
                 continue
-            obs.append(ctx.ob(rule, f, x, status=_V, detail=f"{f.short} writes another object's history (`{norm(x)[:70]}`): {why}", construct=f"foreign-history-write:{f.short}"))
+            if carry_ok and isinstance(x, ast.Call) and x.func.attr == "append" and len(x.args) == 1 and isinstance(x.args[0], ast.List) and len(x.args[0].elts) == 1 and norm(x.args[0].elts[0]) in (f"{norm(tgt.value)}.current_population", f"{norm(tgt.value)}._history[-1][-1]"):
+                continue  # the current population recorded once more: every individual of it belonged to the preceding generation
+            if foreign:
+                obs.append(ctx.ob(rule, f, x, status=_V, detail=f"{f.short} writes another object's history (`{norm(x)[:70]}`): {why}", construct=f"foreign-history-write:{f.short}"))
     # a recorded generation edited in place through a local alias: `g = self._history[-1][-1]; g[i] = x` / `g.remove(x)`
     for f in ctx.prog.all_functions():
         if f.name == "<module>":
@@ -789,6 +792,12 @@ def foreign_history_writes(ctx: Ctx, rule: str, why: str):
                     alias[y.targets[0].id] = y
         if not alias:
             continue
+        if not own_step_edits and f.cls is not None and (f.cls is base or ctx.prog.is_subclass(f.cls, base)) and f.self_name() is not None:
+            # the deme edits its OWN record while it runs (it is active and awake then): whether a recorded generation may
+            # change at all is C02's / C11's question, not the caller's
+            alias = {k: y for k, y in alias.items() if not any(isinstance(z, ast.Name) and z.id == f.self_name() for z in ast.walk(y.value))}
+            if not alias:
+                continue
         for x in body_walk(f.node):
             tgt = None
             if isinstance(x, ast.Call) and isinstance(x.func, ast.Attribute) and x.func.attr in MUT and isinstance(x.func.value, ast.Name):
